@@ -694,6 +694,9 @@ func (vc *FnVC) frameCheck(key, ref string) {
 		return
 	}
 	allowed := []string{sx(">", ref, vc.entryAlloc)}
+	if strings.HasPrefix(key, "Mem$") {
+		allowed = append(allowed, sEq(ref, "0")) // the backing store of a nil slice: nothing to write
+	}
 	for _, t := range vc.frameTargets {
 		if t.key != key {
 			continue
